@@ -680,6 +680,9 @@ V_LAYOUTS = [
     ("with a trailing comment", lambda L: ["character(len=*), parameter :: s = " + L + " ! a comment, with a comma"]),
     ("second of two entities", lambda L: ["character(len=*), parameter :: t = 'first,one', s = " + L]),
     ("literal broken in the middle", lambda L: ["character(len=*), parameter :: s = " + L[:3] + "&", "      &" + L[3:]]),
+    # a comment may follow the closing quote of a literal continued from the previous line
+    ("literal broken in the middle, comment after its end", lambda L: ["character(len=*), parameter :: s = " + L[:3] + "&", "      &" + L[3:] + " ! a comment, here"]),
+    ("literal broken in the middle, documentation after its end", lambda L: ["character(len=*), parameter :: s = " + L[:3] + "&", "      &" + L[3:] + " !! documented"]),
     # the literal resumes directly after the leading &: blanks that follow it belong to the literal
     ("literal broken in front of its blanks", lambda L: ["character(len=*), parameter :: s = " + L[:L.index(" ")] + "&", "      &" + L[L.index(" "):]]
      if " " in L[1:-1] else ["character(len=*), parameter :: s = " + L, "! filler"]),
